@@ -216,25 +216,71 @@ func runC16(c *Ctx) {
 		}
 		// merge closures
 		var seenPut, seenRem bool
-		for _, a := range ct.AnonFuncs {
-			names := map[string]bool{}
-			for _, call := range ssau.CallsIn(a, func(cm *ssa.CallCommon) bool {
-				o := ssau.CalleeObj(cm)
-				return o != nil && (o.Name() == "Put" || o.Name() == "Delete")
-			}) {
-				recv := ""
-				if fv, ok := ssau.AddrRoot(ssau.Unwrap(call.Common().Args[0])).(*ssa.UnOp); ok {
-					if v, ok := fv.X.(*ssa.FreeVar); ok {
-						recv = v.Name()
+		// the merge closures live in commitTx or in a helper of the cache it calls; the treaps they update are
+		// identified by role (which cache field the new root is stored into), not by variable name
+		hosts := []*ssa.Function{ct}
+		for _, b := range ct.Blocks {
+			for _, in := range b.Instrs {
+				if cl, ok := in.(*ssa.Call); ok {
+					if h := cl.Call.StaticCallee(); h != nil && h.Pkg == ct.Pkg && h != ct && len(h.AnonFuncs) > 0 {
+						hosts = append(hosts, h)
 					}
 				}
-				names[recv+"."+ssau.CalleeObj(call.Common()).Name()] = true
 			}
-			if names["newCachedRemove.Delete"] && names["newCachedKeys.Put"] {
-				seenPut = true
+		}
+		for _, host := range hosts {
+			roleOf := func(cell ssa.Value) string {
+				for _, b := range host.Blocks {
+					for _, in := range b.Instrs {
+						st, ok := in.(*ssa.Store)
+						if !ok {
+							continue
+						}
+						ld, ok := st.Val.(*ssa.UnOp)
+						if !ok || ld.X != cell {
+							continue
+						}
+						if ssau.IsFieldOf(st.Addr, "dbCache", "cachedKeys") {
+							return "keys"
+						}
+						if ssau.IsFieldOf(st.Addr, "dbCache", "cachedRemove") {
+							return "remove"
+						}
+					}
+				}
+				return ""
 			}
-			if names["newCachedKeys.Delete"] && names["newCachedRemove.Put"] {
-				seenRem = true
+			for _, b := range host.Blocks {
+				for _, in := range b.Instrs {
+					mc, ok := in.(*ssa.MakeClosure)
+					if !ok {
+						continue
+					}
+					a := mc.Fn.(*ssa.Function)
+					names := map[string]bool{}
+					for _, call := range ssau.CallsIn(a, func(cm *ssa.CallCommon) bool {
+						o := ssau.CalleeObj(cm)
+						return o != nil && (o.Name() == "Put" || o.Name() == "Delete")
+					}) {
+						role := ""
+						if fv, ok := ssau.AddrRoot(ssau.Unwrap(call.Common().Args[0])).(*ssa.UnOp); ok {
+							if v, ok := fv.X.(*ssa.FreeVar); ok {
+								for k, f := range a.FreeVars {
+									if f == v && k < len(mc.Bindings) {
+										role = roleOf(mc.Bindings[k])
+									}
+								}
+							}
+						}
+						names[role+"."+ssau.CalleeObj(call.Common()).Name()] = true
+					}
+					if names["remove.Delete"] && names["keys.Put"] {
+						seenPut = true
+					}
+					if names["keys.Delete"] && names["remove.Put"] {
+						seenRem = true
+					}
+				}
 			}
 		}
 		c.R.Check("G-flush-order", "commitTx|merge of pending keys", seenPut, c.pos(ct.Pos()), "per pending key: cachedRemove.Delete(k) and cachedKeys.Put(k,v)")
